@@ -86,6 +86,9 @@ func (a *muxAnalysis) oracleC03() {
 					continue // not decoded (cannot happen for listed segments of the leading stream)
 				}
 				first, next := lt.units[si.first], lt.units[endOf[msn]]
+				if lt.reorder && (!first.dtsKnown || !next.dtsKnown) {
+					continue // B-frame stream: the decode time of a unit that was never decoded from a container is not known
+				}
 				want := spanDur(next.dts-first.dts, lt.clock)
 				if durDiff(seg.Duration, want) > textRes {
 					fail("extinf", "mismatch", "segment %d: EXTINF %v but its leading units %d..%d span %v", msn, seg.Duration, si.first, endOf[msn], want)
@@ -138,6 +141,9 @@ func (a *muxAnalysis) oracleC03() {
 				}
 				nextIdx := pr.first + pr.count
 				if nextIdx >= len(lt.units) {
+					continue
+				}
+				if lt.reorder && (!lt.units[nextIdx].dtsKnown || !lt.units[pr.first].dtsKnown) {
 					continue
 				}
 				want := spanDur(lt.units[nextIdx].dts-lt.units[pr.first].dts, lt.clock)
